@@ -211,7 +211,8 @@ def pad_content(ctx, rule):
             good = good and len(w) == 1 and w[0]["data"] is not None and w[0]["data"][0] == "mul" and pat in w[0]["data"][1:] and w[0]["length"] in w[0]["data"][1:]
         ctx.ob(rule, fi, good, "%s._build writes self.pattern repeated exactly pad times" % cls, key="%s pad content" % cls)
 
-def run(ctx):
+def numeric_names(ctx, rule):
+    """The 49 public numeric names are bound to the constructor terms their names imply, and exported."""
     M = ctx.model
     core = M.modules[M.CORE]
     sing = M.singletons()
@@ -271,17 +272,26 @@ def run(ctx):
         if ok:
             got = const_call(r[1], *sigs[cls])
             ok = got == want
-        ctx.ob("C03.R1", name, ok, "%s is %s(%s) (found %s)" % (name, cls, want, got), key="%s binding" % name, loc=loc_of(name))
-        ctx.ob("C03.R1", name, name in exported, "%s is exported by construct.__all__" % name, key="%s exported" % name, loc=init_rel)
+        ctx.ob(rule, name, ok, "%s is %s(%s) (found %s)" % (name, cls, want, got), key="%s binding" % name, loc=loc_of(name))
+        ctx.ob(rule, name, name in exported, "%s is exported by construct.__all__" % name, key="%s exported" % name, loc=init_rel)
     for alias, target in SHORTHANDS.items():
         n += 1
         r = sing.get(alias)
-        ctx.ob("C03.R1", alias, r == ("alias", target), "%s is an alias of %s" % (alias, target), key="%s alias" % alias, loc=loc_of(alias))
-        ctx.ob("C03.R1", alias, alias in exported, "%s is exported by construct.__all__" % alias, key="%s exported" % alias, loc=init_rel)
-    native_check(ctx, "C03.R1")
+        ctx.ob(rule, alias, r == ("alias", target), "%s is an alias of %s" % (alias, target), key="%s alias" % alias, loc=loc_of(alias))
+        ctx.ob(rule, alias, alias in exported, "%s is exported by construct.__all__" % alias, key="%s exported" % alias, loc=init_rel)
+    native_check(ctx, rule)
     ctx.extra["public_numeric_names"] = n
     if n < 49:
-        ctx.error("C03.R1 enumerated %d names, floor 49" % n)
+        ctx.error(rule + " enumerated %d names, floor 49" % n)
+    return n
+
+
+def run(ctx):
+    M = ctx.model
+    core = M.modules[M.CORE]
+    sing = M.singletons()
+    fi_dummy = FuncInfo(core, M.CORE, qual="construct.core")
+    numeric_names(ctx, "C03.R1")
     ctx.floor("C03.R1", 99)
     # FormatField consumes its two arguments as order + code
     fi, paths = own_method_paths(ctx, "FormatField", "__init__")
@@ -473,4 +483,4 @@ def run(ctx):
     ctl = control_model(ctl_src)
     r = ctl.singleton_ctor("Int16sl")
     got = const_call(r[1], ["endianity", "format"], {})
-    ctx.control("C03.R1", got != expected["Int16sl"][1])
+    ctx.control("C03.R1", got != {"endianity": STRUCT_ORDER["l"], "format": INT_CODE[(16, True)]})
